@@ -387,3 +387,5 @@ func Leaked() string {
 	fmt.Println("VF-LEAKED", out)
 	return out
 }
+
+func Deviations(k int) {}
